@@ -1598,13 +1598,36 @@ Proof.
       [cbn; auto | cbn; auto | contradiction Hnp; reflexivity].
 Qed.
 
-Theorem lpl_run_is_event_run ctx timeout : lp_ctx_wf ctx -> forall arr ss, Forall arrival_wf arr ->
+(* ... and for a frame that carries a fragment header the equation needs no hypothesis at all *)
+Lemma lpl_poll_is_event_step_frag ctx timeout a ss : sixlowpan_dispatch (ar_payload a) = Ok 0 ->
+  lpl_poll ctx timeout a ss = ev_step timeout (lpl_ev_of ctx a) ss.
+Proof.
+  intros Hd. unfold lpl_poll, lp_process_sixlowpan, lpl_ev_of. cbv zeta. rewrite Hd. rewrite !Z.eqb_refl.
+  pose proof (sixfrag_new_checked_total (ar_payload a)) as Hn.
+  destruct (sixfrag_new_checked (ar_payload a)) as [[]|e|] eqn:En; [|cbn; auto|contradiction Hn; reflexivity].
+  pose proof (sixfrag_parse_total (ar_payload a)) as Hp.
+  destruct (sixfrag_accessors_safe _ En) as (_ & _ & _ & _ & Hpl).
+  destruct (sixfrag_parse (ar_payload a)) as [h|e|] eqn:Eh; [|cbn; auto|contradiction Hp; reflexivity].
+  destruct (sixfrag_payload (ar_payload a)) as [pl|e|] eqn:Epl; [|cbn; auto|contradiction Hpl; reflexivity].
+  cbn [obind ev_step].
+  match goal with |- match ?x with _ => _ end = _ =>
+    pose proof (lpf_process_fragment_noerr (ar_time a) timeout (lpl_ll_bytes (ar_lls a)) (lpl_ll_bytes (ar_lld a))
+                  (mkRxFrag h pl (fun buflen => lp_sixlowpan_to_ipv6 ctx (ar_lls a) (ar_lld a) pl (Some (lpf_hdr_size h)) buflen))
+                  (lpf_remove_expired (ar_time a) ss)) as Hne;
+    destruct x as [r|e|] eqn:Ex end; [reflexivity | exfalso; exact (Hne e eq_refl) | reflexivity].
+Qed.
+
+Definition arrival_frag_or_wf (a : lpl_arrival) : Prop :=
+  sixlowpan_dispatch (ar_payload a) = Ok 0 \/ arrival_wf a.
+
+Theorem lpl_run_is_event_run ctx timeout : lp_ctx_wf ctx -> forall arr ss, Forall arrival_frag_or_wf arr ->
   lpl_run ctx timeout arr ss = ev_run timeout (map (lpl_ev_of ctx) arr) ss.
 Proof.
   intros Hctx. induction arr as [|a arr IH]; intros ss Hwf; [reflexivity|].
   inversion Hwf as [|? ? Ha Hrest]; subst. cbn [lpl_run map ev_run].
-  rewrite (proj1 (lpl_poll_is_event_step ctx timeout a ss Hctx Ha)).
-  destruct (ev_step timeout (lpl_ev_of ctx a) ss) as [(ss1, d)|e|]; cbn [obind]; [|reflexivity|reflexivity].
+  assert (E : lpl_poll ctx timeout a ss = ev_step timeout (lpl_ev_of ctx a) ss).
+  { destruct Ha as [Ha|Ha]; [apply lpl_poll_is_event_step_frag; exact Ha | exact (proj1 (lpl_poll_is_event_step ctx timeout a ss Hctx Ha))]. }
+  rewrite E. destruct (ev_step timeout (lpl_ev_of ctx a) ss) as [(ss1, d)|e|]; cbn [obind]; [|reflexivity|reflexivity].
   rewrite IH by exact Hrest. reflexivity.
 Qed.
 
@@ -1669,3 +1692,493 @@ Proof.
     rewrite sixfrag_emit_exact; [|assumption | apply bytes_ok_firstn; assumption | apply blen_firstn; lia].
     cbn [obind]. rewrite wb_from_ok by lia. cbn [obind]. rewrite Hset. reflexivity.
 Qed.
+
+Definition frame_bytes (f : lpf_frame) : list Z :=
+  match fr_hdr f with Some h => sixfrag_bytes h ++ fr_payload f | None => fr_payload f end.
+Definition frame_hdr_ok (f : lpf_frame) : Prop :=
+  match fr_hdr f with Some h => sixfrag_wf h = true | None => True end.
+
+Lemma bytes_ok_repeat x n : 0 <= x < 256 -> bytes_ok (repeat x n) = true.
+Proof.
+  intros Hx. unfold bytes_ok. apply forallb_forall. intros y Hy. apply repeat_spec in Hy. subst y.
+  unfold is_u8. apply andb_true_intro. split; [apply Z.leb_le | apply Z.ltb_lt]; lia.
+Qed.
+
+Theorem lpl_frames_octets_spec txfill : 0 <= txfill < 256 -> forall fs, Forall frame_hdr_ok fs ->
+  lpl_frames_octets fs txfill = Ok (map frame_bytes fs).
+Proof.
+  intros Hf. induction fs as [|f fs IH]; intros Hok; [reflexivity|].
+  inversion Hok as [|? ? Hh Hrest]; subst. cbn [lpl_frames_octets map].
+  assert (E : lpl_frame_octets f (repeat txfill (Z.to_nat (lpl_txbuf_len f))) = Ok (frame_bytes f)).
+  { unfold frame_hdr_ok in Hh. unfold frame_bytes. destruct (fr_hdr f) as [h|] eqn:Eh.
+    - apply lpl_frame_octets_spec; [exact Eh | exact Hh | apply bytes_ok_repeat; exact Hf|].
+      rewrite blen_repeat. unfold lpl_txbuf_len. rewrite Eh.
+      pose proof (sixfrag_buffer_len_pos h). pose proof (blen_nonneg (fr_payload f)). lia.
+    - unfold lpl_frame_octets. rewrite Eh. reflexivity. }
+  rewrite E. cbn [obind]. rewrite (IH Hrest). reflexivity.
+Qed.
+
+(* ================================================================================
+   12. end to end: datagram -> compressed -> frames -> octets -> polls -> datagram
+   ================================================================================ *)
+
+Lemma piece_ok_ext D tag f g : rf_hdr f = rf_hdr g -> rf_payload f = rf_payload g ->
+  (match rf_hdr f with SfFirst _ _ => forall n, rf_first_dec f n = rf_first_dec g n | SfNext _ _ _ => True end) ->
+  piece_ok D tag f -> piece_ok D tag g.
+Proof.
+  intros Hh Hp Hd. unfold piece_ok. rewrite <- Hh, <- Hp. destruct (rf_hdr f); [|tauto].
+  intros (H1 & H2 & x & H3 & H4). split; [exact H1|]. split; [exact H2|]. exists x. split; [|exact H4].
+  intros n Hn. rewrite <- Hd. exact (H3 n Hn).
+Qed.
+
+Lemma lpl_ll_bytes_len l : iphc_ll_wf l = true ->
+  blen (lpl_ll_bytes l) = 0 \/ blen (lpl_ll_bytes l) = 2 \/ blen (lpl_ll_bytes l) = 8.
+Proof.
+  destruct l as [[|a|a]|]; cbn [lpl_ll_bytes iphc_ll_wf]; intros H; try (left; reflexivity); bsplit; auto.
+Qed.
+
+(* the frames from position lo to position lo' of the compressed packet, contiguous *)
+Inductive nexts_seg (c : list Z) (size tag hdiff : Z) : Z -> list lpf_frame -> Z -> Prop :=
+| ns_nil lo : nexts_seg c size tag hdiff lo [] lo
+| ns_cons lo n fs lo' : 0 < n -> lo + n <= blen c -> (lo + hdiff) mod 8 = 0 -> 0 <= (lo + hdiff) / 8 < 256 ->
+    nexts_seg c size tag hdiff (lo + n) fs lo' ->
+    nexts_seg c size tag hdiff lo
+      (mkFrame (Some (SfNext size tag ((lo + hdiff) / 8))) (firstn (Z.to_nat n) (skipn (Z.to_nat lo) c)) :: fs) lo'.
+
+Lemma lpf_nexts_seg c size tag hdiff fn lo fs : lpf_nexts c size tag hdiff fn lo fs ->
+  nexts_seg c size tag hdiff lo fs (blen c).
+Proof.
+  induction 1 as [lo E|lo n fs Hn Hle Hlast Hm Hoff Hnx IH]; [subst; constructor|].
+  apply ns_cons; try assumption; lia.
+Qed.
+
+Lemma nexts_seg_le c size tag hdiff lo fs lo' : nexts_seg c size tag hdiff lo fs lo' -> lo <= lo' <= Z.max lo (blen c).
+Proof. induction 1; lia. Qed.
+
+Lemma nexts_seg_snoc c size tag hdiff : forall fs lo l lo', nexts_seg c size tag hdiff lo (fs ++ [l]) lo' ->
+  exists mid, nexts_seg c size tag hdiff lo fs mid /\ nexts_seg c size tag hdiff mid [l] lo' /\ mid < lo'.
+Proof.
+  induction fs as [|f fs IH]; intros lo l lo' H; cbn [app] in H.
+  - exists lo. split; [constructor|]. split; [exact H|].
+    inversion H as [|? n ? ? Hn ? ? ? Hr]; subst. inversion Hr; subst. lia.
+  - inversion H as [|? n ? ? Hn Hle Hm Ho Hr]; subst. destruct (IH _ _ _ Hr) as (mid & H1 & H2 & H3).
+    exists mid. split; [apply ns_cons; assumption | auto].
+Qed.
+
+Lemma Forall2_cons_inv' {A B} (R : A -> B -> Prop) a l b l' : Forall2 R (a :: l) (b :: l') -> R a b /\ Forall2 R l l'.
+Proof. intros H. inversion H; subst. auto. Qed.
+Lemma Forall2_nil_inv' {A B} (R : A -> B -> Prop) l' : Forall2 R [] l' -> l' = [].
+Proof. intros H. inversion H. reflexivity. Qed.
+
+Lemma Forall2_all_none {A} (P : A -> Prop) : forall (l : list A) (rs : list (option (list Z))),
+  Forall2 (fun x r => P x -> r = None) l rs -> (forall x, In x l -> P x) -> rs = repeat None (length l).
+Proof.
+  induction l as [|x l IH]; intros rs HF Hall; inversion HF as [|? r ? rs' Hr HF']; subst; [reflexivity|].
+  cbn [length repeat]. f_equal; [apply Hr; apply Hall; left; reflexivity|].
+  apply IH; [exact HF' | intros z Hz; apply Hall; right; exact Hz].
+Qed.
+
+Section EndToEnd.
+  Variables (d : lp_dgram) (lls lld : option iphc_ll) (ctx : list (list Z)) (c D : list Z) (tag : Z).
+  Hypothesis Hwf : lp_dgram_wf d lls lld.
+  Hypothesis Hc : lp_compressed d lls lld = Ok c.
+  Hypothesis HD : lp_ipv6_bytes d = Ok D.
+  Hypothesis Hctx : lp_ctx_wf ctx.
+  Hypothesis Htag : 0 <= tag < 65536.
+
+  Let src := lpl_ll_bytes lls.
+  Let dst := lpl_ll_bytes lld.
+  Let ieee_len := lpf_ieee_len dst src.
+  Let k : lpf_key := (src, dst, blen D, tag).
+
+  Hypothesis Hneed : lpf_needs_frag (blen c) ieee_len = true.
+  Hypothesis Hbuf : blen c <= lpf_BUFFER.
+
+  Lemma e2e_ll_wf : iphc_ll_wf lls = true /\ iphc_ll_wf lld = true.
+  Proof.
+    destruct Hwf as (Hr & _). unfold iphc_repr_wf, lp_iphc_repr in Hr.
+    cbn [ir_src ir_dst ir_ll_src ir_ll_dst ir_nh ir_hl ir_ecn ir_dscp ir_flow] in Hr.
+    rewrite !andb_true_iff in Hr. tauto.
+  Qed.
+
+  Lemma e2e_ieee_len : 5 <= ieee_len <= 21.
+  Proof.
+    destruct e2e_ll_wf as (H1 & H2). subst ieee_len src dst.
+    apply lpf_ieee_len_range; apply lpl_ll_bytes_len; assumption.
+  Qed.
+
+  (* the facts lp_roundtrip_fragmented derives, once *)
+  Lemma e2e_setup : exists chdr uhdr fs,
+    lp_compressed_packet_size d lls lld = Ok (blen c, chdr, uhdr) /\
+    0 <= chdr <= uhdr /\ blen D = blen c + (uhdr - chdr) /\ blen D < 2048 /\ lpf_IPV6_HDR <= blen D /\
+    chdr <= lpf_f1 ieee_len (uhdr - chdr) /\ 0 < lpf_f1 ieee_len (uhdr - chdr) < blen c /\
+    (forall p n, chdr <= p -> 0 <= n ->
+       firstn (Z.to_nat n) (skipn (Z.to_nat p) c) = firstn (Z.to_nat n) (skipn (Z.to_nat (p + (uhdr - chdr))) D)) /\
+    (forall n, blen D <= n ->
+       lp_sixlowpan_to_ipv6 ctx lls lld (firstn (Z.to_nat (lpf_f1 ieee_len (uhdr - chdr))) c) (Some (blen D)) n =
+       Ok (firstn (Z.to_nat (lpf_f1 ieee_len (uhdr - chdr) + (uhdr - chdr))) D)) /\
+    lpf_send ieee_len c chdr uhdr (lp_payload_len (ld_pl d)) tag =
+      Ok (mkFrame (Some (SfFirst (blen D) tag)) (firstn (Z.to_nat (lpf_f1 ieee_len (uhdr - chdr))) c) :: fs) /\
+    lpf_nexts c (blen D) tag (uhdr - chdr) (lpf_fn ieee_len) (lpf_f1 ieee_len (uhdr - chdr)) fs.
+  Proof.
+    pose proof e2e_ieee_len as Hie.
+    destruct (lp_compressed_packet_size_spec d lls lld c Hwf Hc) as (chdr & uhdr & Hsz & Hh & Hcc & Hc45 & Hu48 & Hdiff).
+    pose proof (lp_ipv6_bytes_len d lls lld D Hwf HD) as HDl.
+    assert (Hfit : blen c + (uhdr - chdr) < 2048) by (destruct lpf_config_fits as (Hcf & _); lia).
+    destruct (lpf_f1_facts ieee_len c chdr uhdr 0 Hie Hneed) as (Hf1 & Hm & Hfit1 & Hlow).
+    assert (Hchdr : chdr <= lpf_f1 ieee_len (uhdr - chdr)).
+    { unfold lpf_MAX_FRAME, lpf_FRAG1_HDR in Hlow. zfold_in Hlow. lia. }
+    assert (Hrest : skipn (Z.to_nat chdr) c = skipn (Z.to_nat uhdr) D /\ uhdr <= blen D).
+    { destruct (lp_tails d lls lld c D chdr uhdr Hwf Hc HD Hsz) as (Pc & Pd & tail & -> & -> & Lc & Ld).
+      rewrite !skipn_app_exact by (unfold blen in *; lia). split; [reflexivity|].
+      rewrite blen_app. pose proof (blen_nonneg tail). lia. }
+    destruct Hrest as (Hrest & Hu).
+    assert (HlD : blen D = blen c + (uhdr - chdr)).
+    { assert (H : blen (skipn (Z.to_nat chdr) c) = blen (skipn (Z.to_nat uhdr) D)) by (rewrite Hrest; reflexivity).
+      rewrite !blen_skipn in H by lia. lia. }
+    assert (Hdec : forall n, blen D <= n ->
+       lp_sixlowpan_to_ipv6 ctx lls lld (firstn (Z.to_nat (lpf_f1 ieee_len (uhdr - chdr))) c) (Some (blen D)) n =
+       Ok (firstn (Z.to_nat (lpf_f1 ieee_len (uhdr - chdr) + (uhdr - chdr))) D)).
+    { intros n Hn.
+      pose proof (lp_decompress_prefix d lls lld ctx Hwf c D (lpf_f1 ieee_len (uhdr - chdr)) (Some (blen D)) n Hc HD
+                    ltac:(right; reflexivity) Hn ltac:(lia)) as H.
+      replace (blen D - blen c) with (uhdr - chdr) in H by lia. apply H.
+      unfold lp_compressed_packet_size in Hsz. destruct Hwf as (Hr & _).
+      rewrite (iphc_buffer_len_spec _ Hr) in Hsz. cbn [obind] in Hsz.
+      destruct (ld_pl d); injection Hsz as _ <- _; assumption. }
+    destruct (lpf_send_spec ieee_len c chdr uhdr (lp_payload_len (ld_pl d)) tag Hie Hh Hneed Hbuf Hfit) as (fs & Es & Hnx).
+    assert (Hds : (lp_payload_len (ld_pl d) + lpf_IPV6_HDR) mod 65536 = blen D).
+    { change lpf_IPV6_HDR with lp_IPV6_HDR. rewrite <- HDl. apply Z.mod_small. pose proof (blen_nonneg D). lia. }
+    rewrite Hds in Es, Hnx.
+    exists chdr, uhdr, fs. split; [exact Hsz|]. split; [exact Hh|]. split; [exact HlD|]. split; [lia|].
+    split.
+    { change lpf_IPV6_HDR with lp_IPV6_HDR. rewrite HDl. unfold lp_IPV6_HDR. pose proof (blen_nonneg c).
+      destruct (ld_pl d) as [pp data|pr bytes]; cbn [lp_payload_len];
+        [pose proof (blen_nonneg data) | pose proof (blen_nonneg bytes)]; unfold lp_UDP_HDR; zfold; lia. }
+    split; [exact Hchdr|]. split; [exact Hf1|]. split; [|split; [exact Hdec | split; [exact Es | exact Hnx]]].
+    intros p n Hp Hn. f_equal.
+    replace (Z.to_nat p) with (Z.to_nat (p - chdr) + Z.to_nat chdr)%nat by lia.
+    rewrite <- skipn_add, Hrest, skipn_add. f_equal. lia.
+  Qed.
+
+  (* what dispatch_sixlowpan does for this datagram: the fragmentation branch, on c *)
+  Lemma e2e_dispatch fill chdr uhdr : 0 <= fill < 256 ->
+    lp_compressed_packet_size d lls lld = Ok (blen c, chdr, uhdr) ->
+    lp_dispatch d src dst lls lld tag fill = lpf_send ieee_len c chdr uhdr (lp_payload_len (ld_pl d)) tag.
+  Proof.
+    intros Hf Hsz. unfold lp_dispatch. rewrite Hsz. cbn [obind]. fold ieee_len. rewrite Hneed.
+    replace (lpf_BUFFER <? blen c) with false by (symmetry; apply Z.ltb_ge; lia).
+    assert (Hbl : blen (repeat fill (Z.to_nat lpf_BUFFER)) = lpf_BUFFER).
+    { rewrite blen_repeat. unfold lpf_BUFFER. zfold. reflexivity. }
+    rewrite (lp_ipv6_to_sixlowpan_spec d lls lld c _ Hwf Hc (bytes_ok_repeat fill _ Hf)) by lia. cbn [obind].
+    pose proof (blen_nonneg c). rewrite wb_upto_app_l by lia. rewrite wb_upto_all. cbn [obind]. reflexivity.
+  Qed.
+
+  (* every frame of the egress model, as octets behind the MAC header, received in a poll at any
+     time from the same link-layer addresses: a fragment event under key k that is a piece of D *)
+  Lemma e2e_frame_event chdr uhdr frames :
+    lp_compressed_packet_size d lls lld = Ok (blen c, chdr, uhdr) ->
+    lpf_send ieee_len c chdr uhdr (lp_payload_len (ld_pl d)) tag = Ok frames ->
+    forall fr, In fr frames -> frame_hdr_ok fr /\
+      forall t, exists f, lpl_ev_of ctx (mkArrival t lls lld (frame_bytes fr)) = EvFrag t src dst f /\
+                          frag_key src dst f = k /\ piece_ok D tag f /\
+                          Some (rf_hdr f) = fr_hdr fr /\ rf_payload f = fr_payload fr.
+  Proof.
+    intros Hsz Hs fr Hin.
+    destruct e2e_setup as (chdr' & uhdr' & fs & Hsz' & Hh & HlD & HD2k & H40 & Hchdr & Hf1 & Hshift & Hdec & Es & Hnx).
+    rewrite Hsz in Hsz'. injection Hsz' as <- <-.
+    pose proof e2e_ieee_len as Hie.
+    assert (Hfit : blen c + (uhdr - chdr) < 2048) by lia.
+    set (dec1 := fun buflen => lp_sixlowpan_to_ipv6 ctx lls lld (firstn (Z.to_nat (lpf_f1 ieee_len (uhdr - chdr))) c) (Some (blen D)) buflen).
+    assert (Hrest : skipn (Z.to_nat chdr) c = skipn (Z.to_nat uhdr) D).
+    { pose proof (Hshift chdr (blen c - chdr) ltac:(lia) ltac:(lia)) as H.
+      rewrite !firstn_all2 in H; [|rewrite skipn_length; unfold blen in *; lia|rewrite skipn_length; unfold blen in *; lia].
+      replace (chdr + (uhdr - chdr)) with uhdr in H by lia. exact H. }
+    pose proof (lp_ipv6_bytes_len d lls lld D Hwf HD) as HDl.
+    destruct (lpf_sender_pieces_ok ieee_len c D chdr uhdr (lp_payload_len (ld_pl d)) tag dec1 Hie Hh Hneed Hbuf Hfit
+                Hrest ltac:(lia) ltac:(lia) (eq_sym HDl) Hchdr Hdec frames Hs fr Hin) as (rf & Erf & Hok).
+    unfold lpf_rx_of_frame in Erf. destruct (fr_hdr fr) as [h|] eqn:Eh; [|discriminate Erf]. injection Erf as <-.
+    (* the header is well-formed for the wire *)
+    assert (Hhw : sixfrag_wf h = true /\ lpf_hdr_size h = blen D /\ lpf_hdr_tag h = tag /\
+                  (match h with SfFirst _ _ => fr_payload fr = firstn (Z.to_nat (lpf_f1 ieee_len (uhdr - chdr))) c | _ => True end)).
+    { rewrite Es in Hs. injection Hs as <-. pose proof (blen_nonneg D). destruct Hin as [<-|Hin].
+      - cbn [fr_hdr] in Eh. injection Eh as <-. cbn [fr_payload]. split; [|auto]. unfold sixfrag_wf, sixfrag_SIZE_MASK, is_u16.
+        apply andb_true_intro. split; [apply andb_true_intro; split; [apply Z.leb_le | apply Z.leb_le]; lia|].
+        apply andb_true_intro. split; [apply Z.leb_le | apply Z.ltb_lt]; lia.
+      - destruct (lpf_nexts_offsets _ _ _ _ _ _ _ Hnx fr Hin) as (p & n & Hh' & Hal & Hoff & _).
+        rewrite Eh in Hh'. injection Hh' as ->. split; [|auto]. unfold sixfrag_wf, sixfrag_SIZE_MASK, is_u16, is_u8.
+        repeat (apply andb_true_intro; split); try apply Z.leb_le; try apply Z.ltb_lt; lia. }
+    destruct Hhw as (Hhwf & Hhs & Hht & Hf1p).
+    split; [unfold frame_hdr_ok; rewrite Eh; exact Hhwf|]. intros t.
+    unfold frame_bytes. rewrite Eh. rewrite (lpl_ev_of_fragment_octets ctx t lls lld h (fr_payload fr) Hhwf).
+    eexists. split; [reflexivity|]. split; [unfold frag_key, k; cbn [rf_hdr]; rewrite Hhs, Hht; reflexivity|].
+    split; [|cbn [rf_hdr rf_payload]; auto].
+    apply (piece_ok_ext D tag (mkRxFrag h (fr_payload fr) dec1)); [reflexivity | reflexivity | | exact Hok].
+    cbn [rf_hdr rf_first_dec]. destruct h as [s0 t0|s0 t0 o0]; [|exact I].
+    intros n. subst dec1. cbv beta. rewrite Hf1p. cbn [lpf_hdr_size] in Hhs. rewrite Hhs. reflexivity.
+  Qed.
+
+  (* the spans of the frames of a segment, as events in order: they tile [lo + hdiff, lo' + hdiff) *)
+  Lemma e2e_seg_events hdiff chdr : chdr <= blen c -> blen D = blen c + hdiff -> 0 <= hdiff -> forall lo fs lo',
+    nexts_seg c (blen D) tag hdiff lo fs lo' -> 0 <= lo -> forall evs,
+    Forall2 (fun fr e => exists t f, e = EvFrag t src dst f /\ frag_key src dst f = k /\
+                                     Some (rf_hdr f) = fr_hdr fr /\ rf_payload f = fr_payload fr) fs evs ->
+    prefix_order D k (lo + hdiff) evs /\
+    existsb (ev_kfirstb k) evs = false /\
+    (forall x, kcov D k evs x <-> lo + hdiff <= x < lo' + hdiff).
+  Proof.
+    intros Hcl HlD Hh0 lo fs lo' Hseg. induction Hseg as [lo|lo n fs lo' Hn Hle Hm Ho Hseg IH]; intros Hlo evs HF.
+    - inversion HF; subst. cbn. split; [exact I|]. split; [reflexivity|]. intros x. unfold kcov. rewrite Exists_nil. lia.
+    - inversion HF as [|? e ? evs' (t & f & -> & Hk & Hhd & Hpl) HF']; subst. cbn [fr_hdr fr_payload] in Hhd, Hpl.
+      injection Hhd as Hhd.
+      assert (Hbl : blen (firstn (Z.to_nat n) (skipn (Z.to_nat lo) c)) = n).
+      { rewrite blen_firstn; [reflexivity|]. rewrite blen_skipn by lia. lia. }
+      assert (Esp : frag_span D f = (lo + hdiff, n)).
+      { unfold frag_span. rewrite Hhd, Hpl, Hbl. f_equal. lia. }
+      destruct (ev_kspan_frag D k t src dst f Hk) as (Es & Ef). rewrite Esp in Es.
+      assert (Efi : frag_is_first f = false) by (unfold frag_is_first; rewrite Hhd; reflexivity).
+      destruct (IH ltac:(lia) evs' HF') as (Hp & Hfi & Hcov).
+      cbn [prefix_order existsb]. rewrite Es, Ef, Efi, Hfi. split.
+      { split; [lia|]. split; [lia|]. replace (Z.max (lo + hdiff) (lo + hdiff + n)) with (lo + n + hdiff) by lia. exact Hp. }
+      split; [reflexivity|]. intros x. unfold kcov. rewrite Exists_cons. fold (kcov D k evs' x). rewrite Hcov.
+      pose proof (nexts_seg_le _ _ _ _ _ _ _ Hseg). split.
+      + intros [(o & s & E & Hx)|Hx]; [rewrite Es in E; injection E as <- <-; lia | lia].
+      + intros Hx. destruct (Z.lt_ge_cases x (lo + hdiff + n)); [left; exists (lo + hdiff), n; split; [exact Es | lia] | right; lia].
+  Qed.
+
+  (* ---------- the theorems ---------- *)
+  Variables (fill txfill timeout : Z).
+  Hypothesis Hfill : 0 <= fill < 256.
+  Hypothesis Htxfill : 0 <= txfill < 256.
+
+  Variable octs : list (list Z).
+  Hypothesis Hocts : lpl_tx_octets d lls lld tag fill txfill = Ok octs.
+
+  (* the octets on the wire are the header octets + payload of the frames of the egress model *)
+  Lemma e2e_octs : exists chdr uhdr fs,
+    lp_compressed_packet_size d lls lld = Ok (blen c, chdr, uhdr) /\
+    let F1 := mkFrame (Some (SfFirst (blen D) tag)) (firstn (Z.to_nat (lpf_f1 ieee_len (uhdr - chdr))) c) in
+    lpf_send ieee_len c chdr uhdr (lp_payload_len (ld_pl d)) tag = Ok (F1 :: fs) /\
+    octs = map frame_bytes (F1 :: fs) /\
+    lpf_nexts c (blen D) tag (uhdr - chdr) (lpf_fn ieee_len) (lpf_f1 ieee_len (uhdr - chdr)) fs.
+  Proof.
+    destruct e2e_setup
+      as (chdr & uhdr & fs & Hsz & Hh & HlD & HD2k & H40 & Hchdr & Hf1 & Hshift & Hdec & Es & Hnx).
+    exists chdr, uhdr, fs. split; [exact Hsz|]. cbv zeta. split; [exact Es|]. split; [|exact Hnx].
+    unfold lpl_tx_octets in Hocts. fold src dst in Hocts.
+    rewrite (e2e_dispatch fill chdr uhdr Hfill Hsz) in Hocts.
+    fold src dst ieee_len in Hocts. rewrite Es in Hocts. cbn [obind] in Hocts.
+    rewrite lpl_frames_octets_spec in Hocts; [injection Hocts as <-; reflexivity | exact Htxfill|].
+    apply Forall_forall. intros fr Hin.
+    exact (proj1 (e2e_frame_event chdr uhdr _ Hsz Es fr Hin)).
+  Qed.
+
+  (* arrivals: each is either one of the frames the sender emitted (same link-layer addresses), or
+     any well-formed frame that is not a fragment under key k *)
+  Definition e2e_arrival_ok (a : lpl_arrival) : Prop :=
+    (ar_lls a = lls /\ ar_lld a = lld /\ In (ar_payload a) octs) \/
+    (arrival_wf a /\ ~ ev_is k (lpl_ev_of ctx a)).
+
+  Lemma e2e_sender_arrival a : ar_lls a = lls /\ ar_lld a = lld /\ In (ar_payload a) octs ->
+    sixlowpan_dispatch (ar_payload a) = Ok 0 /\
+    exists f, lpl_ev_of ctx a = EvFrag (ar_time a) src dst f /\ frag_key src dst f = k /\ piece_ok D tag f.
+  Proof.
+    intros (Hl1 & Hl2 & Hino).
+    destruct e2e_octs as (chdr & uhdr & fs & Hsz & Es & Eo & _). cbv zeta in Es. rewrite Eo in Hino.
+    apply in_map_iff in Hino. destruct Hino as (fr & Hfb & Hfr).
+    destruct (e2e_frame_event chdr uhdr _ Hsz Es fr Hfr) as (Hho & Hev).
+    destruct (Hev (ar_time a)) as (f' & Ef' & Hk' & Hp & Hhd' & _).
+    assert (Ea : a = mkArrival (ar_time a) lls lld (frame_bytes fr)) by (destruct a; cbn in *; subst; reflexivity).
+    rewrite <- Ea in Ef'. split; [|exists f'; auto].
+    rewrite <- Hfb. unfold frame_bytes. unfold frame_hdr_ok in Hho. destruct (fr_hdr fr) as [h|]; [|discriminate Hhd'].
+    apply sixlowpan_dispatch_frag. exact Hho.
+  Qed.
+
+  Lemma e2e_arrivals_frag_or_wf arr : Forall e2e_arrival_ok arr -> Forall arrival_frag_or_wf arr.
+  Proof.
+    intros H. apply Forall_forall. intros a Ha. rewrite Forall_forall in H.
+    destruct (H a Ha) as [Hs|(Hw & _)]; [left; exact (proj1 (e2e_sender_arrival a Hs)) | right; exact Hw].
+  Qed.
+
+  Lemma e2e_events_ok arr : Forall e2e_arrival_ok arr -> Forall (ev_ok D k tag) (map (lpl_ev_of ctx) arr).
+  Proof.
+    intros H. apply Forall_forall. intros e He. apply in_map_iff in He. destruct He as (a & <- & Hin).
+    rewrite Forall_forall in H. destruct (H a Hin) as [Hs|(Hawf & Hnk)].
+    - destruct (e2e_sender_arrival a Hs) as (_ & f & -> & Hkf & Hp). cbn [ev_ok]. split; [intros _; exact Hp | intros Hcc; contradiction].
+    - destruct (lpl_poll_is_event_step ctx timeout a [] Hctx Hawf) as (_ & Htame & _).
+      destruct (lpl_ev_of ctx a) as [t s' d' f|t r] eqn:Eev; [|exact I]. cbn [ev_ok]. cbn [ev_tame] in Htame. cbn [ev_is] in Hnk.
+      split; [intros Hcc; contradiction | intros _; exact Htame].
+  Qed.
+
+  (* E2E, safety: whatever arrives, in any order, with any other traffic in between: under key k
+     the receiver hands exactly D to process_ipv6, or nothing *)
+  Theorem lpl_e2e_exact_or_nothing arr ss st :
+    kstate D k ss st -> Forall e2e_arrival_ok arr ->
+    exists ss' rs st', lpl_run ctx timeout arr ss = Ok (ss', rs) /\ kstate D k ss' st' /\
+      Forall2 (fun a r => ev_is k (lpl_ev_of ctx a) -> r = None \/ r = Some D) arr rs.
+  Proof.
+    intros Hst Harr.
+    destruct e2e_setup as (_ & _ & _ & _ & _ & _ & _ & H40 & _).
+    pose proof (e2e_arrivals_frag_or_wf arr Harr) as Hawf.
+    rewrite (lpl_run_is_event_run ctx timeout Hctx arr ss Hawf).
+    destruct (ev_run_safe D tag src dst timeout _ ss st H40 Hst (e2e_events_ok arr Harr)) as (ss' & rs & st' & E & Hst' & HF & _).
+    exists ss', rs, st'. split; [exact E|]. split; [exact Hst'|].
+    clear E. revert rs HF. induction arr as [|a arr IH]; intros rs HF; inversion HF; subst; constructor; [assumption|].
+    apply IH; [inversion Harr; assumption | inversion Hawf; assumption | assumption].
+  Qed.
+
+  (* E2E, liveness, any order the tracker can follow *)
+  Theorem lpl_e2e_delivers pre a post ss :
+    0 <= timeout -> kstate D k ss None -> Forall e2e_arrival_ok (pre ++ a :: post) ->
+    let ev := lpl_ev_of ctx in
+    let a0 := hd a pre in
+    ev_is k (ev a0) -> (exists j, (j < length ss)%nat /\ slot_avail (ar_time a0) (nth j ss lpf_slot_new)) ->
+    Forall (fun x => ar_time x <= ar_time a0 + timeout) (pre ++ [a]) ->
+    gaps_fit lpf_N D k asm_new (map ev (pre ++ [a])) ->
+    ev_is k (ev a) -> k_complete D k (map ev (pre ++ [a])) -> ~ k_complete D k (map ev pre) ->
+    exists ss' rs_pre rs_post st',
+      lpl_run ctx timeout (pre ++ a :: post) ss = Ok (ss', rs_pre ++ Some D :: rs_post) /\
+      kstate D k ss' st' /\ length rs_pre = length pre /\
+      Forall2 (fun x r => ev_is k (ev x) -> r = None) pre rs_pre /\
+      Forall2 (fun x r => ev_is k (ev x) -> r = None \/ r = Some D) post rs_post.
+  Proof.
+    intros Hto Hst Harr ev a0 Hk0 Hav Htime Hgaps Hka Hcomp Hninc.
+    destruct e2e_setup as (_ & _ & _ & _ & _ & _ & _ & H40 & _).
+    pose proof (e2e_arrivals_frag_or_wf _ Harr) as Hawf.
+    assert (Htm : forall x, ev_time (ev x) = ar_time x).
+    { intros x. unfold ev, lpl_ev_of. cbv zeta. repeat match goal with |- context [match ?y with _ => _ end] => destruct y end; reflexivity. }
+    rewrite (lpl_run_is_event_run ctx timeout Hctx _ ss Hawf). rewrite map_app. cbn [map].
+    pose proof (e2e_events_ok _ Harr) as Hok. rewrite map_app in Hok. cbn [map] in Hok.
+    assert (Hhd : hd (ev a) (map ev pre) = ev a0) by (subst a0; destruct pre; reflexivity).
+    rewrite map_app in Hgaps, Hcomp. cbn [map] in Hgaps, Hcomp.
+    destruct (ev_run_delivers D tag src dst timeout (map ev pre) (ev a) (map ev post) ss H40 Hto Hst Hok)
+      as (ss' & rs_pre & rs_post & st' & E & Hst' & Hl & HF1 & HF2 & _); try assumption.
+    - rewrite Hhd. exact Hk0.
+    - rewrite Hhd, Htm. exact Hav.
+    - rewrite Hhd, Htm. change [ev a] with (map ev [a]). rewrite <- (map_app ev pre [a]). apply Forall_forall. intros e He.
+      apply in_map_iff in He. destruct He as (x & <- & Hx). rewrite Htm. rewrite Forall_forall in Htime. exact (Htime x Hx).
+    - exists ss', rs_pre, rs_post, st'. split; [exact E|]. split; [exact Hst'|]. split; [rewrite Hl; apply map_length|].
+      split.
+      + clear - HF1. revert rs_pre HF1. induction pre as [|x pre IH]; intros rs HF; inversion HF; subst; constructor; auto.
+      + clear - HF2. revert rs_post HF2. induction post as [|x post IH]; intros rs HF; inversion HF; subst; constructor; auto.
+  Qed.
+
+  (* E2E, the arrival order of the wire: every frame the sender emitted, in order, each polled no
+     later than reassembly_timeout after the first, at a receiver with no slot claimed for k and a
+     free or expired slot: nothing until the last frame, exactly D at the last frame -- for EVERY
+     tracker capacity (the merged range is always one) *)
+  Theorem lpl_e2e_in_order arr ss :
+    0 <= timeout -> kstate D k ss None ->
+    map ar_payload arr = octs -> Forall (fun a => ar_lls a = lls /\ ar_lld a = lld) arr ->
+    let t0 := match arr with a :: _ => ar_time a | [] => 0 end in
+    (exists j, (j < length ss)%nat /\ slot_avail t0 (nth j ss lpf_slot_new)) ->
+    Forall (fun a => ar_time a <= t0 + timeout) arr ->
+    exists ss' st', lpl_run ctx timeout arr ss = Ok (ss', repeat None (length arr - 1) ++ [Some D]) /\
+                    kstate D k ss' st'.
+  Proof.
+    intros Hto Hst Hpay Hll t0 Hav Htime.
+    destruct e2e_setup as (chdr0 & uhdr0 & fs0 & Hsz0 & Hh & HlD & HD2k & H40 & Hchdr & Hf1 & Hshift & Hdec & Es0 & Hnx0).
+    destruct e2e_octs as (chdr & uhdr & fs & Hsz & Es & Eocts & Hnx). cbv zeta in Es.
+    rewrite Hsz0 in Hsz. injection Hsz as <- <-. clear Es0 Hnx0 fs0.
+    set (hdiff := uhdr0 - chdr0) in *. set (f1 := lpf_f1 ieee_len hdiff) in *.
+    set (F1 := mkFrame (Some (SfFirst (blen D) tag)) (firstn (Z.to_nat f1) c)) in *.
+    assert (Hhd0 : 0 <= hdiff) by (subst hdiff; lia).
+    (* the frame list is F1 :: fs' ++ [l] *)
+    pose proof (lpf_nexts_seg _ _ _ _ _ _ _ Hnx) as Hseg.
+    assert (Hfs : fs <> []) by (intros ->; inversion Hseg; lia).
+    destruct (exists_last Hfs) as (fs' & l & ->).
+    destruct (nexts_seg_snoc _ _ _ _ _ _ _ _ Hseg) as (mid & Hseg1 & Hsegl & Hmid).
+    pose proof (nexts_seg_le _ _ _ _ _ _ _ Hseg1) as Hmidle.
+    set (frames := F1 :: fs' ++ [l]) in *.
+    assert (Hfev : forall fr t, In fr frames ->
+              exists f, lpl_ev_of ctx (mkArrival t lls lld (frame_bytes fr)) = EvFrag t src dst f /\
+                        frag_key src dst f = k /\ piece_ok D tag f /\ Some (rf_hdr f) = fr_hdr fr /\ rf_payload f = fr_payload fr).
+    { intros fr t Hin. exact (proj2 (e2e_frame_event chdr0 uhdr0 _ Hsz0 Es fr Hin) t). }
+    (* the arrivals, split like the frames *)
+    rewrite Eocts in Hpay. subst frames. cbn [map] in Hpay.
+    destruct (map_eq_cons _ _ Hpay) as (a1 & arr2 & -> & Hp1 & Hpay2).
+    rewrite map_app in Hpay2. destruct (map_eq_app _ _ _ _ Hpay2) as (arr' & arrl & -> & Hpay' & Hpayl).
+    cbn [map] in Hpayl. destruct (map_eq_cons _ _ Hpayl) as (al & nil' & -> & Hpl & Hnil).
+    apply map_eq_nil in Hnil. subst nil'. cbn [hd] in t0. subst t0.
+    set (frames := F1 :: fs' ++ [l]) in *.
+    assert (Hmk : forall a fr, ar_lls a = lls /\ ar_lld a = lld -> ar_payload a = frame_bytes fr ->
+                    a = mkArrival (ar_time a) lls lld (frame_bytes fr)).
+    { intros [t x y z] fr (H1 & H2) H3. cbn in *. subst. reflexivity. }
+    pose proof (Forall_inv Hll) as Hll1. pose proof (Forall_inv_tail Hll) as Hll2.
+    apply Forall_app in Hll2. destruct Hll2 as (Hll' & Hlll). pose proof (Forall_inv Hlll) as Hlll1.
+    assert (Hone : forall t fr, In fr frames -> e2e_arrival_ok (mkArrival t lls lld (frame_bytes fr))).
+    { intros t fr Hin. left. cbn [ar_lls ar_lld ar_payload]. split; [reflexivity|]. split; [reflexivity|].
+      rewrite Eocts. apply in_map. exact Hin. }
+    assert (Harr_of : forall frs arrs, (forall fr, In fr frs -> In fr frames) ->
+              map ar_payload arrs = map frame_bytes frs -> Forall (fun a => ar_lls a = lls /\ ar_lld a = lld) arrs ->
+              Forall e2e_arrival_ok arrs /\
+              Forall2 (fun fr e => exists t f, e = EvFrag t src dst f /\ frag_key src dst f = k /\
+                                               Some (rf_hdr f) = fr_hdr fr /\ rf_payload f = fr_payload fr)
+                      frs (map (lpl_ev_of ctx) arrs)).
+    { induction frs as [|fr frs IHf]; intros [|a arrs] Hsub Hm HllA; cbn [map] in Hm; try discriminate Hm.
+      - split; constructor.
+      - injection Hm as Hm1 Hm2. pose proof (Forall_inv HllA) as Ha. pose proof (Forall_inv_tail HllA) as HllB.
+        destruct (IHf arrs ltac:(intros x Hx; apply Hsub; right; exact Hx) Hm2 HllB) as (I1 & I2).
+        pose proof (Hmk a fr Ha Hm1) as Ea.
+        split.
+        + constructor; [rewrite Ea; apply Hone; apply Hsub; left; reflexivity | exact I1].
+        + cbn [map]. constructor; [|exact I2].
+          destruct (Hfev fr (ar_time a) (Hsub fr ltac:(left; reflexivity))) as (f & Ef & Hkf & _ & Hhf & Hplf).
+          exists (ar_time a), f. rewrite Ea. auto. }
+    set (ev := lpl_ev_of ctx) in *.
+    destruct (Harr_of [F1] [a1] ltac:(intros x [<-|[]]; left; reflexivity) ltac:(cbn; f_equal; exact Hp1) ltac:(constructor; auto))
+      as (Ho1 & HR1).
+    destruct (Harr_of fs' arr' ltac:(intros x Hx; right; apply in_or_app; left; exact Hx) Hpay' Hll') as (Ho' & HR').
+    destruct (Harr_of [l] [al] ltac:(intros x [<-|[]]; right; apply in_or_app; right; left; reflexivity) ltac:(cbn; f_equal; exact Hpl)
+                ltac:(constructor; auto)) as (Hol & HRl).
+    cbn [map] in HR1, HRl.
+    destruct (Forall2_cons_inv' _ _ _ _ _ HR1) as ((t1 & g1 & Eg1 & Hk1 & Hh1 & Hpl1) & _).
+    destruct (Forall2_cons_inv' _ _ _ _ _ HRl) as ((tl & gl & Egl & Hkl & Hhl & Hpll) & _).
+    (* the span of the first fragment *)
+    assert (Hsp1 : frag_span D g1 = (0, f1 + hdiff) /\ frag_is_first g1 = true).
+    { pose proof (Hmk a1 F1 Hll1 Hp1) as Ea1.
+      assert (Hg : sixfrag_wf (SfFirst (blen D) tag) = true)
+        by exact (proj1 (e2e_frame_event chdr0 uhdr0 _ Hsz0 Es F1 ltac:(left; reflexivity))).
+      pose proof (lpl_ev_of_fragment_octets ctx (ar_time a1) lls lld (SfFirst (blen D) tag) (fr_payload F1) Hg) as Ex.
+      fold ev in Ex. change (sixfrag_bytes (SfFirst (blen D) tag) ++ fr_payload F1) with (frame_bytes F1) in Ex.
+      rewrite <- Ea1, Eg1 in Ex. injection Ex as _ ->. unfold frag_span, frag_is_first. cbn [rf_hdr rf_first_dec fr_payload F1 lpf_hdr_size].
+      split; [|reflexivity]. rewrite (Hdec (blen D) ltac:(lia)). f_equal. apply blen_firstn. lia. }
+    destruct Hsp1 as (Hsp1 & Hfi1).
+    destruct (ev_kspan_frag D k t1 src dst g1 Hk1) as (Es1 & Ef1). rewrite Hsp1 in Es1. rewrite Hfi1 in Ef1.
+    (* the FRAGN events tile [f1 + hdiff, |D|) *)
+    assert (Hf1lo : 0 <= f1) by lia.
+    destruct (e2e_seg_events hdiff chdr0 ltac:(lia) HlD Hhd0 f1 fs' mid Hseg1 Hf1lo _ HR') as (_ & _ & Hcov1).
+    pose proof (Forall2_app HR' HRl) as HRall.
+    change [ev al] with (map ev [al]) in HRall. rewrite <- map_app in HRall.
+    destruct (e2e_seg_events hdiff chdr0 ltac:(lia) HlD Hhd0 f1 (fs' ++ [l]) (blen c) Hseg Hf1lo _ HRall) as (Hpoall & Hnfall & Hcovall).
+    (* apply the liveness theorem *)
+    destruct (lpl_e2e_delivers (a1 :: arr') al [] ss Hto Hst) as (ss' & rs_pre & rs_post & st' & E & Hst' & Hlp & HFp & HFq).
+    - cbn [app]. constructor; [exact (Forall_inv Ho1)|]. apply Forall_app. split; [exact Ho' | exact Hol].
+    - cbn [hd]. fold ev. rewrite Eg1. exact Hk1.
+    - cbn [hd]. exact Hav.
+    - cbn [hd app]. exact Htime.
+    - change asm_new with (prefix_asm 0). apply gaps_fit_prefix_order; [apply lpf_N_pos | lia|].
+      cbn [map app]. fold ev. rewrite Eg1. cbn [prefix_order]. rewrite Es1.
+      split; [lia|]. split; [lia|]. replace (Z.max 0 (0 + (f1 + hdiff))) with (f1 + hdiff) by lia. exact Hpoall.
+    - fold ev. rewrite Egl. exact Hkl.
+    - cbn [map app]. fold ev. rewrite Eg1. split.
+      + unfold kfirst. cbn [existsb]. rewrite Ef1. reflexivity.
+      + intros x Hx. unfold kcov. rewrite Exists_cons. destruct (Z.lt_ge_cases x (f1 + hdiff)).
+        * left. exists 0, (f1 + hdiff). split; [exact Es1 | lia].
+        * right. apply Hcovall. lia.
+    - cbn [map]. fold ev. rewrite Eg1. intros (_ & Hcov).
+      specialize (Hcov (mid + hdiff) ltac:(lia)). unfold kcov in Hcov. rewrite Exists_cons in Hcov.
+      destruct Hcov as [(o & s & E' & Hx)|Hx]; [rewrite Es1 in E'; injection E' as <- <-; lia|].
+      apply Hcov1 in Hx. lia.
+    - exists ss', st'. split; [|exact Hst'].
+      change (a1 :: arr' ++ [al]) with ((a1 :: arr') ++ [al]). rewrite E.
+      rewrite (Forall2_nil_inv' _ _ HFq).
+      assert (Hallk : forall x, In x (a1 :: arr') -> ev_is k (ev x)).
+      { intros x [<-|Hx]; [rewrite Eg1; exact Hk1|].
+        assert (Hin : In (ev x) (map ev arr')) by (apply in_map; exact Hx).
+        clear - HR' Hin. induction HR' as [|fr e frs es (t & f & -> & Hk & _) _ IH]; [destruct Hin|].
+        destruct Hin as [<-|Hin]; [exact Hk | exact (IH Hin)]. }
+      rewrite (Forall2_all_none (fun x => ev_is k (ev x)) _ _ HFp Hallk).
+      rewrite app_length. cbn [length]. replace (S (length arr') + 1 - 1)%nat with (S (length arr')) by lia. reflexivity.
+  Qed.
+End EndToEnd.
